@@ -12,6 +12,8 @@ class Project:
         self.shape = shape
         self.extras = extras or {}  # {i: extra line (e.g. an injected warning / error)}
         self.members = []
+        self.unused = {}            # {i: [j...]}  i imports j and never looks into it
+        self.pad = {}               # {j: number of extra private function definitions (makes j's analysis slower)}
         self.cyc_uses_var = False   # cross-cycle accessors read the partner's function `.f` (pre-registered); True: its variable `.x`
 
     def x(self, i, memo=None):
@@ -25,10 +27,14 @@ class Project:
         lines = []
         for j in sorted(set(self.dag.get(i, []) + self.cyc.get(i, []))):
             lines.append(f'{self.names[j]} = import "{self.names[j]}"')
+        for j in self.unused.get(i, []):
+            lines.append(f'_u{j} = import "{self.names[j]}"')
         lines.append(f'print! "top {n}"')
         if i in self.extras:
             lines.append(self.extras[i])
         terms = [str(self.consts[i])] + [f"{self.names[j]}.x" for j in self.dag.get(i, [])]
+        for k in range(self.pad.get(i, 0)):
+            lines.append(f"pad{k}(a: Int, b: Int): Int = (a + {k}) * (b - {k}) + a * b // {k + 1} + abs(a - b)")
         if i != 0:
             lines.append(f".x: Int = {' + '.join(terms)}")
             lines.append(f".f(n: Int): Int = n + {self.consts[i]}")
@@ -66,7 +72,7 @@ class Project:
             if i in seen:
                 continue
             seen.add(i)
-            todo += self.dag.get(i, []) + self.cyc.get(i, [])
+            todo += self.dag.get(i, []) + self.cyc.get(i, []) + self.unused.get(i, [])
         return t in seen
 
     def reachable_set(self):
@@ -143,4 +149,12 @@ def generate(seed, allow_cycles=True):
         if not p.reachable(j) and j not in members:
             add(dag, 0, j)
     p.members = members
+    if r.random() < 0.35:
+        # a module that is only imported, never looked into, by a non-root module (its analysis thread has no waiting consumer)
+        importer = r.randrange(1, n) if n > 1 else 0
+        if importer not in members:
+            p.names.append(f"m{n}")
+            p.consts.append(r.randrange(1, 50))
+            p.unused[importer] = [n]
+            p.pad[n] = r.choice([0, 20, 60])
     return p
